@@ -84,6 +84,7 @@ class Report:
         self.diverge, self.oracle, self.minimal, self.anomaly, self.bad = [], [], [], [], []
         self.cases = {}
         self.done = None
+        self.notes = []
         for l in out.split("\n"):
             p = l.split(" ")
             if p[0] == "DIVERGE" and len(p) >= 5:
@@ -94,6 +95,8 @@ class Report:
                 self.minimal.append(dict(case=p[1], op=int(p[2]), label=p[3], kind="minimal", text=l))
             elif p[0] == "ANOMALY" and len(p) >= 3:
                 self.anomaly.append(dict(case=p[1], op=int(p[2]), label="-", kind="anomaly", text=l))
+            elif p[0] == "NOTE":
+                self.notes.append(l[5:300])
             elif p[0] == "BADLINE":
                 self.bad.append(l)
             elif p[0] == "CASE":
@@ -133,6 +136,8 @@ def shrink(R, exe, h, kind, ops_lines, still_fails, budget=60):
 
 
 def count_cases(R, rep, trace_text, samples_prefix="O "):
+    for t in rep.notes[:5]:
+        R.notes.append("harness/tables: " + t)
     n = len(rep.cases)
     distinct = set(kv.get("hash") for kv in rep.cases.values() if kv.get("nontrivial") == "1")
     samples = []
